@@ -289,4 +289,162 @@ theorem parse_hex_key {k : List Nat} {l c : Nat} (h : langOfKey k = some (l, c))
           rw [← en1, ← en2, h.1, h.2]
   · cases h
 
+/-! ### reading an event list (specification side) -/
+
+theorem triples_fold_strings (l : List Nat) (acc : List (List Nat × List Nat × List Nat)) (ss : List VStr) :
+    (ss.map (fun s => SEvent.string s.key (stripTerminator s.stored))).foldl triplesStep (l, acc)
+      = (l, acc ++ ss.map (fun s => (l, s.key, stripTerminator s.stored))) := by
+  induction ss generalizing acc with
+  | nil => simp
+  | cons s ss ih => simp only [List.map_cons, List.foldl_cons, triplesStep]; rw [ih]; simp
+
+theorem triples_fold_tables (l : List Nat) (acc : List (List Nat × List Nat × List Nat)) (ts : List VTable) :
+    ∃ l', (ts.flatMap VTable.events).foldl triplesStep (l, acc) = (l', acc ++ ts.flatMap VTable.triples) := by
+  induction ts generalizing l acc with
+  | nil => exact ⟨l, by simp⟩
+  | cons t ts ih =>
+    simp only [List.flatMap_cons, List.foldl_append, VTable.events, List.cons_append, List.nil_append,
+      List.foldl_cons, List.foldl_nil, triplesStep, triples_fold_strings]
+    obtain ⟨l', h⟩ := ih t.lang (acc ++ t.strings.map (fun s => (t.lang, s.key, stripTerminator s.stored)))
+    exact ⟨l', by rw [h]; simp [VTable.triples]⟩
+
+theorem triples_fold_vars (st : List Nat × List (List Nat × List Nat × List Nat)) (vs : List VVar) :
+    (vs.map (fun x => SEvent.var x.key x.value)).foldl triplesStep st = st := by
+  induction vs with
+  | nil => rfl
+  | cons x xs ih => simpa [List.map_cons, List.foldl_cons, triplesStep] using ih
+
+theorem triples_fold_blocks (l : List Nat) (acc : List (List Nat × List Nat × List Nat)) (bs : List VBlock) :
+    ∃ l', (bs.flatMap VBlock.events).foldl triplesStep (l, acc) = (l', acc ++ bs.flatMap VBlock.triples) := by
+  induction bs generalizing l acc with
+  | nil => exact ⟨l, by simp⟩
+  | cons b bs ih =>
+    cases b with
+    | stringInfo ts =>
+      simp only [List.flatMap_cons, List.foldl_append, VBlock.events, List.cons_append, List.nil_append,
+        List.foldl_cons, List.foldl_nil, triplesStep]
+      obtain ⟨l1, h1⟩ := triples_fold_tables l acc ts
+      rw [h1]
+      obtain ⟨l', h⟩ := ih l1 (acc ++ ts.flatMap VTable.triples)
+      exact ⟨l', by rw [h]; simp [VBlock.triples]⟩
+    | varInfo vs =>
+      simp only [List.flatMap_cons, List.foldl_append, VBlock.events, List.cons_append, List.nil_append,
+        List.foldl_cons, List.foldl_nil, triplesStep, triples_fold_vars]
+      obtain ⟨l', h⟩ := ih l acc
+      exact ⟨l', by rw [h]; simp [VBlock.triples]⟩
+
+/-- the event list of a resource reports exactly its (language, key, value) triples, in stored order -/
+theorem triples_events (v : VInfo) : triples v.events = v.strings := by
+  unfold triples VInfo.events VInfo.strings
+  simp only [List.cons_append, List.nil_append, List.foldl_cons, List.foldl_append, List.foldl_nil, triplesStep]
+  obtain ⟨l', h⟩ := triples_fold_blocks [] [] v.blocks
+  rw [h]; simp
+
+theorem translationValues_events (v : VInfo) : translationValues v.events = v.translationVars := by
+  unfold translationValues VInfo.events VInfo.translationVars
+  simp only [List.cons_append, List.nil_append, List.filterMap_cons, List.filterMap_append, List.filterMap_nil,
+    List.append_nil, filterMap_flatMap, translationOf]
+  congr 1
+  funext b
+  cases b with
+  | stringInfo ts =>
+    simp only [VBlock.events, VBlock.translationVars, List.cons_append, List.nil_append, List.filterMap_cons,
+      List.filterMap_append, List.filterMap_nil, List.append_nil, filterMap_flatMap, translationOf]
+    induction ts with
+    | nil => rfl
+    | cons t ts ih =>
+      simp only [List.flatMap_cons, ih, List.append_nil]
+      simp only [VTable.events, List.cons_append, List.nil_append, List.filterMap_cons, List.filterMap_append,
+        List.filterMap_nil, List.append_nil, List.filterMap_map, translationOf]
+      induction t.strings with
+      | nil => rfl
+      | cons x l ihs => simpa [List.filterMap_cons, translationOf] using ihs
+  | varInfo vs =>
+    simp only [VBlock.events, VBlock.translationVars, List.cons_append, List.nil_append, List.filterMap_cons,
+      List.filterMap_append, List.filterMap_nil, List.append_nil, List.filterMap_map, translationOf]
+    induction vs with
+    | nil => rfl
+    | cons x l ih =>
+      simp only [List.filterMap_cons, Function.comp, List.filter_cons, translationOf]
+      by_cases hx : x.key = kTranslation
+      · simp [hx, ih]
+      · simp [hx, ih]
+
+/-! ### the translation slice and the events -/
+
+theorem lastTranslation_eq (vs : List Tlv) (s : Option Sl) :
+    lastTranslation vs s = match (vs.filter fun x => x.key.ws = strTranslation).getLast? with
+      | some x => some x.value
+      | none => s := by
+  unfold lastTranslation
+  induction vs generalizing s with
+  | nil => rfl
+  | cons x l ih =>
+    rw [List.foldl_cons, ih]
+    by_cases h : x.key.ws = strTranslation
+    · have : List.filter (fun x => decide (x.key.ws = strTranslation)) (x :: l)
+          = x :: List.filter (fun x => decide (x.key.ws = strTranslation)) l := by simp [List.filter, h]
+      rw [this]
+      cases hf : List.filter (fun x => decide (x.key.ws = strTranslation)) l with
+      | nil => simp [h]
+      | cons y ys =>
+        rw [List.getLast?_cons_cons]
+        cases hg : (y :: ys).getLast? with
+        | none => simp at hg
+        | some z => rfl
+    · have : List.filter (fun x => decide (x.key.ws = strTranslation)) (x :: l)
+          = List.filter (fun x => decide (x.key.ws = strTranslation)) l := by simp [List.filter, h]
+      rw [this]; simp [h]
+
+theorem translationOf_var (x : Tlv) :
+    translationOf (Event.erase (Event.var x.key x.value)) = if x.key.ws = strTranslation then some x.value.ws else none := by
+  simp [translationOf, Event.erase, kTranslation_eq]
+
+theorem translationValues_flatRoot (r : PRoot) :
+    translationValues ((flatRoot r).map Event.erase)
+      = (r.vars.filter fun x => x.key.ws = strTranslation).map (·.value.ws) := by
+  unfold translationValues flatRoot PRoot.vars
+  simp only [List.cons_append, List.nil_append, List.map_cons, List.map_append, List.map_nil, Event.erase,
+    List.filterMap_cons, List.filterMap_append, List.filterMap_nil, List.append_nil, List.filterMap_map,
+    filterMap_flatMap, translationOf]
+  induction r.infos with
+  | nil => rfl
+  | cons i is ih =>
+    simp only [List.flatMap_cons, List.filter_append, List.map_append, ih]
+    congr 1
+    unfold flatInfo PInfo.vars
+    simp only [List.cons_append, List.nil_append, List.filterMap_cons, List.filterMap_append, List.filterMap_nil,
+      List.append_nil, Function.comp, Event.erase, translationOf]
+    cases i.kind with
+    | tables ts =>
+      simp only [flatKind, filterMap_flatMap, List.filter_nil, List.map_nil]
+      induction ts with
+      | nil => rfl
+      | cons t ts iht =>
+        simp only [List.flatMap_cons, iht, List.append_nil]
+        simp only [flatTable, flatStrings, List.cons_append, List.nil_append, List.filterMap_cons,
+          List.filterMap_append, List.filterMap_nil, List.append_nil, List.filterMap_map, Event.erase, translationOf]
+        induction t.strings with
+        | nil => rfl
+        | cons x l ihs => simpa [List.filterMap_cons, Event.erase, translationOf] using ihs
+    | vars vs =>
+      simp only [flatKind, List.filterMap_map]
+      induction vs with
+      | nil => rfl
+      | cons x l ihv =>
+        simp only [List.filterMap_cons, Function.comp, List.filter_cons, translationOf_var] at ihv ⊢
+        by_cases hx : x.key.ws = strTranslation
+        · simp [hx, ihv]
+        · simp [hx, ihv]
+    | other => simp [flatKind]
+
+theorem langsOf_pairs (ws : List Nat) : (langsOf ws).map (fun l => (l.langId, l.charsetId)) = pairs ws := by
+  induction ws using langsOf.induct with
+  | case1 a b rest ih => simp [langsOf, pairs, ih]
+  | case2 l h =>
+    match l, h with
+    | [], _ => rfl
+    | [_], _ => rfl
+    | a :: b :: rest, h => exact absurd rfl (h a b rest)
+
 end Pelite.Version
